@@ -10,7 +10,7 @@ ID = "C12"
 LEVEL = "model_checking"
 RULE = ("tree of four 131073-byte files that share prefix and suffix (two equal, two differing in the middle) plus two "
         "small files, on ext4 (deleted inode numbers are reused at once); events: edits {set content variant (same "
-        "length; also with the new mtime in the past of the old one, and with mtimes before 1970), append, truncate, rename, delete+recreate, hard-link, create, edit a small file} - every edit advances "
+        "length; also with the new mtime in the past of the old one, with mtimes before 1970, and restoring the mtime the file had when it was first cached), append, truncate, rename, delete+recreate, hard-link, create, edit a small file} - every edit advances "
         "the file's mtime by 10 ms - and runs `group --cache` with a configuration from {metro, blake3, sha512} x {no transform, "
         "transform cat} x --max-prefix-size {unset, 8192} or with the length-changing transforms `head -c 1000` / `head -c 70000` (same program, different classes), or one command string with and without --in-place, or a run SIGKILLed at 1/4, 1/2, 3/4 of its call history; "
         "ALL histories (edit, run)^d after an initial cache-filling run: quick d=2 over 10 edits x 2 configurations + 5 edits x the (head, head2) switches + 5 x 3 edits under blake3 and sha512 (long digests); "
@@ -35,6 +35,11 @@ EDITS_FULL = [
     ("set_pre1970", "F2", "V1"), ("set_pre1970", "F2", "V0"),
 ]
 PRE1970 = [("set_pre1970", "F2", "V1"), ("set_pre1970", "F2", "V0")]
+# new content at the same length with the modification time the file had when it was FIRST cached (an older version
+# restored with its old time after something else had been there)
+# (only valid AFTER another edit of the same file: otherwise the content would change under an unchanged mtime)
+RESTORE_PAIRS = [(("set_older", "F2", "V1"), ("set_restore", "F2", "V2")), (("set", "F2", "V1"), ("set_restore", "F2", "V2")),
+                 (("set_older", "F3", "V0"), ("set_restore", "F3", "V2")), (("append", "F2"), ("set_restore", "F2", "V2"))]
 EDITS_QUICK = [e for e in EDITS_FULL if e not in (("set", "F4", "V1"), ("set_older", "F3", "V0"), ("truncate", "F2")) and e not in PRE1970]
 EDITS_D3 = [("set", "F2", "V1"), ("set", "F3", "V0"), ("rename", "F1", "F1r"), ("recreate", "F2", "V1"),
             ("recreate", "F3", "V0"), ("append", "F2"), ("set_older", "F2", "V1")]
@@ -75,6 +80,10 @@ def cases(tier, seed):
             for e1 in mix:
                 for e2 in mix[:3]:
                     out.append({"history": [[list(e1), cfg], [list(e2), cfg]], "kills": False})
+        # a rewrite that moves the time backwards, then a rewrite that restores the time the file was first cached with
+        for e1, e2 in RESTORE_PAIRS:
+            for cfg in ("metro", "metro_head2"):
+                out.append({"history": [[list(e1), cfg], [list(e2), cfg]], "kills": False})
         # two rewrites of one file, both with modification times before 1970
         for e1 in PRE1970:
             for e2 in PRE1970:
@@ -95,6 +104,9 @@ def cases(tier, seed):
         steps = [(e, c) for e in EDITS_FULL for c in CONFIGS]
         for h in itertools.product(steps, repeat=2):
             out.append({"history": [list(x) for x in h], "kills": False})
+        for e1, e2 in RESTORE_PAIRS:
+            for cfg in CONFIGS:
+                out.append({"history": [[list(e1), cfg], [list(e2), cfg]], "kills": False})
         steps3 = [(e, c) for e in EDITS_D3 for c in ("metro", "blake3_tr")]
         for h in itertools.product(steps3, repeat=3):
             out.append({"history": [list(x) for x in h], "kills": False})
@@ -113,6 +125,7 @@ class World:
         self.clock = 1_600_000_000_000   # ms
         self.past = 1_500_000_000_000    # ms, for edits that move a file's mtime backwards
         self.pre1970 = -300_000_000_000  # ms, about 1960
+        self.first_mtime = {}            # name -> mtime (ns) the file had when the cache was first filled
         self.paths = {}
         self.reuse = 0
 
@@ -140,7 +153,7 @@ class World:
         kind = edit[0]
         name = edit[1]
         p = self.p(name)
-        if kind in ("set", "set_older", "set_pre1970"):
+        if kind in ("set", "set_older", "set_pre1970", "set_restore"):
             if not os.path.exists(p):
                 return False
             cur = os.path.getsize(p)
@@ -148,7 +161,12 @@ class World:
             data = data + b"A" * (cur - len(data)) if cur > len(data) else data[:cur]
             with open(p, "r+b") as f:
                 f.write(data)
-            if kind == "set_pre1970":
+            if kind == "set_restore":
+                t = self.first_mtime.get(name)
+                if t is None:
+                    return False
+                os.utime(p, ns=(t, t))
+            elif kind == "set_pre1970":
                 self.tick_pre1970(p)
             elif kind == "set_older":
                 self.tick_back(p)
@@ -221,6 +239,8 @@ def evaluate(case):
             return body(C.parse_json_report(out)), err.decode("utf-8", "replace")
 
         # initial cache-filling runs
+        for name, _ in INITIAL:
+            w.first_mtime[name] = os.stat(w.p(name)).st_mtime_ns
         # the cache is warm for every configuration the history uses (+ metro, so that a foreign table is always there)
         for cfg in sorted(set(["metro"] + [c for _, c in case["history"]])):
             b1, e1 = run(cfg, True)
